@@ -9,7 +9,7 @@ starts it with /venv/bin/python, its own PYTHONHASHSEED and PYTHONPATH=<GALLIA_S
 JOB = {"variant": {"name", "import_first": "server"|"commands", "clock_base": float,
                    "global_seed": int|None, "via_config": bool, "reverse": bool, "mutant": None|"global_rng"},
        "cases": [{"id", "seed", "params": {...RandomnessParameters...},
-                  "behavior": {...Behavior...}, "hist": {"tour", "cap", "sa_segments", "full_sweep"}}]}
+                  "behavior": {...Behavior...}, "hist": {"tour", "cap", "sa_segments", "sweep", "full_sweep"}}]}
 
 The child never judges anything: it dumps `server.services` after `setup()` and the
 transcript of `UDSServerTransport.handle_request` for a history that is a
@@ -116,7 +116,12 @@ def build_history(model: list[dict], hist: dict) -> list[list[tuple]]:
     steps: list[tuple] = []
     # A. sweep of every service id in the initial (default) session
     for sid in range(256):
-        forms = SHORT + (MORE if (sid in UDS_SIDS or hist.get("full_sweep")) else [])
+        if sid in UDS_SIDS or hist.get("full_sweep"):
+            forms = SHORT + MORE
+        elif hist.get("sweep") == "short" and not (sid <= 0x0A or sid == 0x7F):
+            forms = SHORT[:1]  # ids no argument list can make the ECU offer
+        else:
+            forms = SHORT
         for f in forms:
             if sid == 0x11 and f[:1] in (b"\x01", b"\x02", b"\x03", b"\x81"):
                 continue  # resets later
